@@ -422,6 +422,16 @@ pub fn classify(w: &World, chain: &[ChainState], rep: &mut CaseReport) {
     if w.relay.iter().any(|e| e.auto_commit) {
         rep.classes.push("leave-auto-commit".into());
     }
+    if let Some(sg) = &w.side {
+        rep.classes.push("second-live-group".into());
+        if sg.side_only.is_some() {
+            rep.classes.push("second-live-group-with-a-client-in-it-only".into());
+        }
+        if sg.events.iter().any(|e| e.app.is_none()) {
+            rep.classes.push("second-live-group-advanced-its-epoch".into());
+        }
+        *rep.counters.entry("cross-group-judgements".into()).or_insert(0) += sg.checks;
+    }
     rep.nontrivial = nontrivial;
     for (k, v) in &w.counters {
         *rep.counters.entry(k.clone()).or_insert(0) += v;
@@ -1168,6 +1178,29 @@ impl Observer for AuthzObserver {
                             return Err(Failure::new("commit-changed-more-than-it-names", detail));
                         }
                     }
+                    // ... and nothing less: everything the call named has happened
+                    if ev.named.rogue.is_none() {
+                        let missing_removed: Vec<&String> =
+                            ev.named.removed.iter().filter(|r| b_ids.contains(*r) && !removed.contains(*r)).collect();
+                        let missing_added: Vec<&String> =
+                            ev.named.added.iter().filter(|a| !b_ids.contains(*a) && !added.contains(*a)).collect();
+                        if ev.named.removed.len() + ev.named.added.len() > 1 {
+                            self.classes.insert("admin-call-naming-several-members".into());
+                        }
+                        if !missing_removed.is_empty() || !missing_added.is_empty() {
+                            return Err(Failure::new(
+                                "commit-changed-less-than-it-names",
+                                format!(
+                                    "{}; the call named removed {:?} / added {:?}, but at the receiver {:?} were not removed and {:?} not added",
+                                    describe(),
+                                    ev.named.removed.iter().map(|s| &s[..8]).collect::<Vec<_>>(),
+                                    ev.named.added.iter().map(|s| &s[..8]).collect::<Vec<_>>(),
+                                    missing_removed.iter().map(|s| &s[..8]).collect::<Vec<_>>(),
+                                    missing_added.iter().map(|s| &s[..8]).collect::<Vec<_>>()
+                                ),
+                            ));
+                        }
+                    }
                 }
             }
             _ => {}
@@ -1446,6 +1479,37 @@ impl Observer for ConfidentialityObserver {
                         ev.what,
                         ev.author,
                         ev.base.as_ref().map(|b| b.short()).unwrap_or_default()
+                    ),
+                ));
+            }
+        }
+        // "removed before that epoch" is judged on MLS rosters: a removal that an admin's call
+        // committed must therefore really be in the roster every receiver ends up with
+        let dev = &w.relay[idx];
+        if matches!(outcome, Outcome::Commit)
+            && dev.class == Class::Commit
+            && dev.named.rogue.is_none()
+            && !dev.named.removed.is_empty()
+            && dev.author != who
+            && cl.cur.is_some()
+            && cl.applied.last().map(|(a, seq, _)| *a == idx && *seq == w.delivery_seq).unwrap_or(false)
+        {
+            self.judged += 1;
+            if dev.named.removed.len() > 1 {
+                self.nontrivial += 1;
+                self.classes.insert("removal-of-several-members-applied".into());
+            }
+            let members = w.local_members(who);
+            let still: Vec<&String> = dev.named.removed.iter().filter(|r| members.contains(r)).collect();
+            if !still.is_empty() {
+                return Err(Failure::new(
+                    "removed-member-is-still-in-the-group",
+                    format!(
+                        "commit #{idx} ({}) by c{} removed {:?}; after applying it c{who} still lists {:?} as member(s): they keep receiving every later epoch's secrets",
+                        dev.what,
+                        dev.author,
+                        dev.named.removed.iter().map(|r| &r[..8]).collect::<Vec<_>>(),
+                        still.iter().map(|r| &r[..8]).collect::<Vec<_>>()
                     ),
                 ));
             }
